@@ -17,7 +17,9 @@ Inductive ctx :=
 | CVote (r : Z) (cands : list (Z * Z))
 | CUnvote (r : Z) (cands : list (Z * Z))
 | CTopup (k amount r : Z)
-| CReturn (k : Z) (refs : list Z) (chg : Z).
+| CReturn (k : Z) (refs : list Z) (chg : Z)
+| CRevPow
+| CRevDpos (interval : Z).
 
 Inductive cblock := CBlock (h t : Z) (txs : list ctx).
 
@@ -33,6 +35,8 @@ Definition tx_of (c : ctx) : tx :=
   | CUnvote r cs => TUnvote (n r) (cands_of cs)
   | CTopup k a r => TTopup (n k) a (n r)
   | CReturn k refs chg => TReturn (n k) (map n refs) chg
+  | CRevPow => TRevertPow
+  | CRevDpos iv => TRevertDpos iv
   end.
 
 Definition block_of (b : cblock) : block :=
